@@ -113,6 +113,7 @@ def to_json(v, model=None):
 CHARSETS = {
     "printable": lambda c: z3.And(uge(c, b8(0x20)), ule(c, b8(0x7e))),
     "ascii": lambda c: ult(c, b8(0x80)),
+    "bytes": lambda c: z3.BoolVal(True),  # arbitrary bytes (binary parsers)
     "graph": lambda c: z3.And(uge(c, b8(0x21)), ule(c, b8(0x7e))),  # printable, no space
     "lower_token": lambda c: z3.Or(z3.And(uge(c, b8(0x61)), ule(c, b8(0x7a))), z3.And(uge(c, b8(0x30)), ule(c, b8(0x39))), c == b8(0x2d)),
 }
